@@ -36,11 +36,7 @@ impl TryFrom<Target> for passage_adapters::Target {
                 cause: Box::new(MissingFieldError { field: "address" }),
             });
         };
-        let address = SocketAddr::from_str(&format!("{}:{}", raw_addr.hostname, raw_addr.port))
-            .map_err(|err| passage_adapters::Error::FailedParse {
-                adapter_type: "grpc",
-                cause: err.into(),
-            })?;
+        let address = SocketAddr::try_from(raw_addr)?;
 
         Ok(Self {
             identifier: value.identifier,
